@@ -559,6 +559,7 @@ fn translate_fn(world: &World, t: &'static Target, sig: &syn::Signature, block: 
     // parameters
     let mut mut_self = false;
     let mut inout_idx: Vec<usize> = vec![];
+    let mut self_mutated_rust: Vec<String> = vec![];
     for (i, a) in sig.inputs.iter().enumerate() {
         match a {
             syn::FnArg::Receiver(r) => {
@@ -617,7 +618,10 @@ fn translate_fn(world: &World, t: &'static Target, sig: &syn::Signature, block: 
     if mut_self && matches!(t.what, What::Fn { .. }) {
         let sname = tr.self_struct.clone().ok_or_else(|| tr.err(sig, "`&mut self` of a type that is not a registered struct"))?;
         let ns = t.container.ns().map(|x| x.to_string());
-        let borrows: Vec<(String, Vec<String>)> = world.borrows.iter().filter(|((n, _), _)| *n == ns).map(|((_, m), b)| (m.clone(), b.then_fields.clone())).collect();
+        let mut borrows: Vec<(String, Vec<String>)> = world.borrows.iter().filter(|((n, _), _)| *n == ns).map(|((_, m), b)| (m.clone(), b.then_fields.clone())).collect();
+        // `self.make(mv);`: the fields a translated `&mut self` method of the same type modifies
+        for ((n, m), info) in world.fns.iter() { if *n == ns && !info.self_mutated.is_empty() { borrows.push((m.clone(), info.self_mutated.clone())); } }
+        borrows.sort();
         let mut fields = mutated_self_fields(block, &borrows);
         if fields.is_empty() { return Err(tr.err(sig, "`&mut self` function in which no supported mutation of a field was found")); }
         // declaration order (independent of the order of the statements)
@@ -629,6 +633,7 @@ fn translate_fn(world: &World, t: &'static Target, sig: &syn::Signature, block: 
             let x = tr.flat_field(sig, "self", 0, &sname, f)?;
             tr.env.push(Var { rust: format!("self.{}", f), lean: x.text.clone(), ty: x.ty.clone(), depth: 1, mutable: true, param: None, declared: true });
             tr.self_mutated.push(x.text);
+            self_mutated_rust.push(f.clone());
         }
     }
     // body (same scope depth as the parameters: `let x = .. x ..` may shadow a parameter)
@@ -737,6 +742,6 @@ fn translate_fn(world: &World, t: &'static Target, sig: &syn::Signature, block: 
     s.push_str(&format!("def {}{} : Option {} := do\n", lean, binders, ret_lean));
     s.push_str(&indent(lines, 2).join("\n"));
 
-    let info = FnInfo { lean: lean.clone(), module: t.module.to_string(), params, ret, rust_params: tr.rust_params.iter().map(|p| p.0.clone()).collect(), inout: inout_idx };
+    let info = FnInfo { lean: lean.clone(), module: t.module.to_string(), params, ret, rust_params: tr.rust_params.iter().map(|p| p.0.clone()).collect(), inout: inout_idx, self_mutated: self_mutated_rust };
     Ok((s, info, tr.deps))
 }
